@@ -236,9 +236,43 @@ def drive_b(rec, ks, quick):
     rec.data["events"] = events
 
 
+def apalache_obligations(chk, ks):
+    """Unbounded (all 62-bit x and carry) single-limb identity, one Apalache run per k. A timeout is recorded as
+    'not discharged' and is never a violation; a counterexample is a model failure."""
+    import os
+    import subprocess
+    from concurrent.futures import ThreadPoolExecutor
+    from common import VERIF, workdir
+    wd = workdir("c05-apalache")
+    spec = os.path.join(VERIF, "spec", "apalache", "NormalizePrimitive.tla")
+
+    def one(k):
+        cfg = os.path.join(wd, "k%d.cfg" % k)
+        open(cfg, "w").write("CONSTANT K = %d\nINIT Init\nNEXT Next\nINVARIANT Inv\n" % k)
+        try:
+            r = subprocess.run(["apalache-mc", "check", "--config=" + cfg, "--length=0", "--inv=Inv", "--out-dir=" + os.path.join(wd, "o%d" % k),
+                                spec], capture_output=True, text=True, timeout=240, cwd=wd)
+        except (subprocess.TimeoutExpired, FileNotFoundError):
+            return k, "timeout"
+        out = r.stdout + r.stderr
+        if "EXITCODE: OK" in out and "no error" in out:
+            return k, "ok"
+        if "violat" in out.lower() or "EXITCODE: ERROR (12)" in out:
+            return k, "refuted"
+        return k, "error"
+    with ThreadPoolExecutor(max_workers=6) as ex:
+        res = dict(ex.map(one, ks))
+    if any(v == "refuted" for v in res.values()):
+        raise Infra("Apalache refutes the single-limb identity of the specification for k in %s" % [k for k, v in res.items() if v == "refuted"])
+    chk.cov["apalache"] = {"obligations": len(ks), "discharged": sum(1 for v in res.values() if v == "ok"),
+                           "not_discharged": {str(k): v for k, v in res.items() if v != "ok"},
+                           "what": "for all x, carry in +-2^62: in + carry_in = out + carry_out*2^k and out balanced (k fixed per run)"}
+
+
 def run(chk, replay=None):
     quick = chk.tier == "quick"
     Lib.get()
+    apalache_obligations(chk, [1, 19, 62] if quick else list(range(1, 63)))
     chk.assumptions += ["coefficients of a limb are processed independently (one event per coefficient column)",
                         "|limb| <= 2^62 as documented; larger values are outside the domain and not generated"]
     # 1. exhaustive
